@@ -121,7 +121,8 @@ def gen_subject(ch, sid, tier, chosen):
             outs.append("hex")
         ops.append({"id": f"s{sid}-{t}-O{opt}", "src": src, "march": t,
                     "opt": opt, "debug": bool(ch.chance(1, 5, "debug")),
-                    "outputs": outs})
+                    "layout": ch.weighted([2, 1], "layout"),
+                    "entry": f"{fnp}0", "outputs": outs})
     return ops
 
 
@@ -222,7 +223,7 @@ def gen_project_ops(ch, b, chosen):
     cands = [t for t in chosen if base_of(t) in RICH]
     for n in range(ch.weighted([2, 3, 1], "nproj") if cands else 0):
         t = ch.pick(cands, "projtarget")
-        main, members = gen_project(ch, f"{n}")
+        main, members, entry = gen_project(ch, f"{n}")
         extra = []
         if ch.chance(1, 3, "projextra"):
             extra.append(gen_unit(ch, "basic", fn_prefix=f"x{n}_",
@@ -232,6 +233,8 @@ def gen_project_ops(ch, b, chosen):
             outs.append("exe")
         ops.append({"id": f"proj{b}.{n}-{t}", "lang": "project", "src": main,
                     "members": members, "extra": extra, "march": t,
+                    "layout": ch.weighted([1, 1], "projlayout"),
+                    "entry": entry,
                     "opt": ch.pick(OPTS, "projopt"), "outputs": outs})
     return ops
 
@@ -282,20 +285,44 @@ def gen_batch(seed, b):
                        ch.draw(len(ops), "repop"))
         # drop some: different histories in different runs
         keep = [i for i in seq if not ch.chance(1, 5, "drop")] or seq[:1]
-        runs.append({"cfg": cfg, "seq": keep})
+        # the order in which the outputs of one compilation are produced
+        # (save the object before or after linking it, link once or twice)
+        # is part of the history too
+        orders = [ch.draw(24, "outorder") for _ in keep]
+        runs.append({"cfg": cfg, "seq": keep, "out_orders": orders})
     # canonical: hash seed 0, native hash, no noise, no history
     canon = {"hashseed": 0, "idhash": None, "noise": 0,
              "clock": {"start": 1.0e9, "step": 0.0}}
     for _ in range(2):
-        runs.append({"cfg": canon, "seq": [ch.draw(len(ops), "canonop")]})
+        runs.append({"cfg": canon, "seq": [ch.draw(len(ops), "canonop")],
+                     "out_orders": [0]})
     return {"batch": b, "ops": ops, "runs": runs}
+
+
+def ops_of_run(batch, run, upto=None):
+    """The op dicts one simulated process executes, with the per-execution
+    order of the outputs applied."""
+    out = []
+    seq = run["seq"] if upto is None else run["seq"][:upto]
+    for pos, i in enumerate(seq):
+        op = batch["ops"][i]
+        k = run.get("out_orders", [0] * len(run["seq"]))[pos]
+        outs = list(op.get("outputs", ["obj"]))
+        if k and len(outs) > 1:
+            perm = []
+            pool = list(outs)
+            while pool:
+                perm.append(pool.pop(k % len(pool)))
+                k //= max(1, len(pool) + 1)
+            op = dict(op, outputs=perm)
+        out.append(op)
+    return out
 
 
 def execute_batch(batch):
     out = []
     for run in batch["runs"]:
-        ops = [batch["ops"][i] for i in run["seq"]]
-        results = run_worker(run["cfg"], ops)
+        results = run_worker(run["cfg"], ops_of_run(batch, run))
         out.append(results)
     return out
 
@@ -334,12 +361,32 @@ def compare_batch(batch, results):
 # ------------------------------------------------------------ minimisation
 
 
+def side_of(batch, r, pos, neuts=()):
+    """(configuration, history) of the execution at position `pos` of run
+    `r`: the configuration also records the order in which that execution
+    produced the subject's outputs."""
+    run = batch["runs"][r]
+    ops = ops_of_run(batch, run, upto=pos + 1)
+    cfg = dict(run["cfg"], neutralise=list(neuts),
+               outputs_order=list(ops[-1].get("outputs", ["obj"])))
+    return cfg, ops[:-1]
+
+
+def with_order(op, cfg):
+    order = cfg.get("outputs_order")
+    if not order:
+        return op
+    outs = [k for k in order if k in op.get("outputs", ["obj"])]
+    outs += [k for k in op.get("outputs", ["obj"]) if k not in outs]
+    return dict(op, outputs=outs)
+
+
 def differs(op, a, b, want_kinds=None):
     """a, b: (cfg, history ops).  Runs both in fresh interpreters; returns
     the output kinds whose digests differ."""
     with ThreadPoolExecutor(max_workers=2) as ex:
-        fa = ex.submit(run_worker, a[0], a[1] + [op])
-        fb = ex.submit(run_worker, b[0], b[1] + [op])
+        fa = ex.submit(run_worker, a[0], a[1] + [with_order(op, a[0])])
+        fb = ex.submit(run_worker, b[0], b[1] + [with_order(op, b[0])])
         ra = fa.result()[-1]["digests"]
         rb = fb.result()[-1]["digests"]
     return sorted(k for k in set(ra) | set(rb) if ra.get(k) != rb.get(k))
@@ -351,10 +398,8 @@ def minimise(batch, mm, budget, neuts=()):
     i, kinds, ra, pa, rb, pb = mm
     op = dict(batch["ops"][i])
     runs = batch["runs"]
-    a = (dict(runs[ra]["cfg"], neutralise=list(neuts)),
-         [batch["ops"][j] for j in runs[ra]["seq"][:pa]])
-    b = (dict(runs[rb]["cfg"], neutralise=list(neuts)),
-         [batch["ops"][j] for j in runs[rb]["seq"][:pb]])
+    a = side_of(batch, ra, pa, neuts)
+    b = side_of(batch, rb, pb, neuts)
     steps = []
 
     def still(a2, b2, op2=None):
@@ -393,13 +438,15 @@ def minimise(batch, mm, budget, neuts=()):
     canon = {"hashseed": 0, "idhash": None, "noise": 0,
              "clock": {"start": 1.0e9, "step": 0.0},
              "neutralise": list(neuts)}
-    if a[0] != canon and still((canon, a[1]), b):
-        a = (canon, a[1])
-        steps.append("side a canonical")
-    if b[0] != canon and still(a, (canon, b[1])):
-        b = (canon, b[1])
-        steps.append("side b canonical")
-    for knob in ("clock", "noise", "idhash", "hashseed"):
+    for which in ("a", "b"):
+        cur = a if which == "a" else b
+        cand = dict(canon, outputs_order=cur[0].get("outputs_order"))
+        if cur[0] != cand:
+            trial = ((cand, a[1]), b) if which == "a" else (a, (cand, b[1]))
+            if still(*trial):
+                a, b = trial
+                steps.append(f"side {which} canonical")
+    for knob in ("clock", "noise", "idhash", "hashseed", "outputs_order"):
         if a[0].get(knob) != b[0].get(knob):
             cfg2 = dict(b[0])
             cfg2[knob] = a[0].get(knob)
@@ -411,6 +458,8 @@ def minimise(batch, mm, budget, neuts=()):
         op2 = dict(op, outputs=["obj"])
         if still(a, b, op2):
             op = op2
+            a = (dict(a[0], outputs_order=["obj"]), a[1])
+            b = (dict(b[0], outputs_order=["obj"]), b[1])
     # 4. program: drop whole top level items / lines while it still differs
     lines = op["src"].split("\n")
     chunk = max(1, len(lines) // 4)
@@ -442,10 +491,12 @@ def run_safe(cfg, op):
 
 def localise(rp):
     """First differing section of ppci's own text report (which phase)."""
-    op = dict(rp["op"], report=True, outputs=["obj"], keep_text=True)
+    op = dict(rp["op"], report=True, keep_text=True)
     try:
-        ra = run_worker(rp["a"]["cfg"], rp["a"]["history"] + [op])[-1]
-        rb = run_worker(rp["b"]["cfg"], rp["b"]["history"] + [op])[-1]
+        ra = run_worker(rp["a"]["cfg"], rp["a"]["history"]
+                        + [with_order(op, rp["a"]["cfg"])])[-1]
+        rb = run_worker(rp["b"]["cfg"], rp["b"]["history"]
+                        + [with_order(op, rp["b"]["cfg"])])[-1]
     except HarnessError as e:
         return {"error": str(e)[:200]}
     la = ra.get("report", "").splitlines()
@@ -539,7 +590,7 @@ def explore(tier, seed, args, sw):
         bi, ri = job
         b = batches[bi]
         run = b["runs"][ri]
-        return run_worker(run["cfg"], [b["ops"][i] for i in run["seq"]])
+        return run_worker(run["cfg"], ops_of_run(b, run))
 
     with ThreadPoolExecutor(max_workers=workers) as ex:
         outs = list(ex.map(do, jobs))
@@ -587,10 +638,10 @@ def explore(tier, seed, args, sw):
                              "seed, identity-hash seed, heap noise, clock and "
                              "history produced different digests",
                    "op": b["ops"][run["seq"][-1]],
-                   "a": {"cfg": run["cfg"], "history":
-                         [b["ops"][i] for i in run["seq"][:-1]]},
-                   "b": {"cfg": run["cfg"], "history":
-                         [b["ops"][i] for i in run["seq"][:-1]]}}
+                   "a": dict(zip(("cfg", "history"),
+                                 side_of(b, ri, len(run["seq"]) - 1))),
+                   "b": dict(zip(("cfg", "history"),
+                                 side_of(b, ri, len(run["seq"]) - 1)))}
         path = report.write_replay(PROP, f"rerun-seed{seed}-b{bi}", payload)
         new_paths.append(("same-config-rerun", path, payload["detail"]))
     # ---- attribution: every mismatch is either explained by a listed
@@ -610,7 +661,7 @@ def explore(tier, seed, args, sw):
             b = batches[bi]
             run = b["runs"][ri]
             return run_worker(dict(run["cfg"], neutralise=neuts),
-                              [b["ops"][i] for i in run["seq"]])
+                              ops_of_run(b, run))
 
         with ThreadPoolExecutor(max_workers=workers) as ex:
             nouts = list(ex.map(do_neut, njobs))
@@ -636,12 +687,10 @@ def explore(tier, seed, args, sw):
                 i, kinds, ra, pa, rb, pb = m
                 bt = batches[bi]
                 raw = {"op": bt["ops"][i],
-                       "a": {"cfg": bt["runs"][ra]["cfg"], "history":
-                             [bt["ops"][j]
-                              for j in bt["runs"][ra]["seq"][:pa]]},
-                       "b": {"cfg": bt["runs"][rb]["cfg"], "history":
-                             [bt["ops"][j]
-                              for j in bt["runs"][rb]["seq"][:pb]]}}
+                       "a": dict(zip(("cfg", "history"),
+                                     side_of(bt, ra, pa))),
+                       "b": dict(zip(("cfg", "history"),
+                                     side_of(bt, rb, pb)))}
                 fid = classify(raw, {}, known)
                 if fid is not None:
                     known_seen.setdefault(
@@ -685,12 +734,10 @@ def explore(tier, seed, args, sw):
         bt = batches[bi]
         payload = {"property": PROP, "key": "unreduced",
                    "op": bt["ops"][i],
-                   "a": {"cfg": dict(bt["runs"][ra]["cfg"], neutralise=neuts),
-                         "history": [bt["ops"][j]
-                                     for j in bt["runs"][ra]["seq"][:pa]]},
-                   "b": {"cfg": dict(bt["runs"][rb]["cfg"], neutralise=neuts),
-                         "history": [bt["ops"][j]
-                                     for j in bt["runs"][rb]["seq"][:pb]]},
+                   "a": dict(zip(("cfg", "history"),
+                                 side_of(bt, ra, pa, neuts))),
+                   "b": dict(zip(("cfg", "history"),
+                                 side_of(bt, rb, pb, neuts))),
                    "detail": f"{bt['ops'][i]['id']} outputs {kinds} differ "
                              f"between two runs of batch {bi} (not reduced)"}
         path = report.write_replay(PROP, f"unreduced-seed{seed}-b{bi}",
